@@ -604,7 +604,57 @@ func ruleCacheAgree(c *RC) *RuleResult {
 		})
 	}
 	if writer == nil {
-		r.unresolved("cache writer (switch over Type() storing into inbox buckets)")
+		// no switch in sight (the bucket is picked by a helper, a table, a chain of ifs): read the walk instead — a
+		// function of the cache that stores its payload parameter into a bucket of the inbox, and under which kinds
+		bucketOf := func(t *Term) string {
+			for t != nil {
+				if t.K == KSel {
+					for i := 0; i < inbox.NumFields(); i++ {
+						if inbox.Field(i).Name() == t.Name {
+							return t.Name
+						}
+					}
+				}
+				if len(t.Args) == 0 {
+					break
+				}
+				t = t.Args[0]
+			}
+			return ""
+		}
+		for _, fn := range c.Prog.dbftFuncs() {
+			if len(fn.Params) != 1 {
+				continue
+			}
+			pn := "p:" + fn.Params[0].Name()
+			rec := c.inlineSites(fn, false)
+			if rec == nil {
+				continue
+			}
+			for _, ss := range rec.FnSites {
+				for _, st := range ss {
+					if st.Kind != "write" {
+						continue
+					}
+					for _, sn := range st.Snaps {
+						b := bucketOf(sn.Recv)
+						if b == "" || sn.Val == nil || sn.Val.S != pn {
+							continue
+						}
+						writer = fn
+						buckets[b] = true
+						for _, l := range sn.TrailL {
+							if l.Pos && l.A.Op == "eq" && l.A.B != nil && strings.HasSuffix(l.A.B.S, "Type") && strings.Contains(l.A.A.S, ".Type("+pn+")") {
+								covered[l.A.B.S] = true
+							}
+						}
+					}
+				}
+			}
+		}
+	}
+	if writer == nil {
+		r.unresolved("cache writer (a function storing its payload parameter into inbox buckets by kind)")
 		return r
 	}
 	exempt := map[string]string{"RecoveryRequestType": "recovery traffic is not cached (source comment: 'Others are recoveries and we don't currently use them')", "RecoveryMessageType": "same"}
